@@ -341,6 +341,37 @@ func c14Dedicated(tier string) []*Scenario {
 			})
 		}
 	}
+	// (1b) a unary call whose request cannot be marshalled: Invoke fails in its send step; the
+	// caller's context is never cancelled, so only the library can end the RPC
+	for _, cfg := range []TunCfg{{}, {Reverse: true}, {ServerNoFC: true}} {
+		cfg := cfg
+		scs = append(scs, &Scenario{
+			Name: fmt.Sprintf("c14/invoke-send-fails/%s", cfg), Prop: "C14",
+			Desc: fmt.Sprintf("a unary Invoke on a %s tunnel whose request message cannot be marshalled (SendMsg fails inside Invoke), with a context that is never cancelled, followed by a normal RPC; after Invoke has returned nothing of the RPC may remain at either end; <= %d deviations", cfg, bound),
+			Opt:  Options{Level: "io", Bound: bound},
+			Run: func(w *World) {
+				w.Invariants = append(w.Invariants, leakInvariant(w))
+				t := w.OpenTunnel(cfg)
+				if t.StartErr != nil {
+					return
+				}
+				a := StdWorkload("k1", 1, "Unary", []int{3}, []int{3})
+				a.Call.KeepCtx, a.Call.BadRequest = true, true
+				a.Handler.Ops = []HOp{{K: "recv"}, {K: "return", Size: 3}}
+				b := StdWorkload("k2", 2, "Unary", []int{3}, []int{3})
+				w.Join(w.StartCallers(t, []Workload{a})...)
+				w.Join(w.StartCallers(t, []Workload{b})...)
+				t.Close()
+			},
+			Check: func(w *World, x *Exec) []Violation {
+				vs := NoHang(x, "C14")
+				for i := range vs {
+					vs[i].Rule, vs[i].Sig = "no-goroutine-left", "leak:never-ends:"+vs[i].Sig
+				}
+				return vs
+			},
+		})
+	}
 	// (2) a reverse tunnel that is stopped / whose serving context is cancelled while it is
 	// being opened and registered
 	for _, how := range []string{"stop", "cancel"} {
